@@ -1,10 +1,9 @@
 #!/bin/bash
-# Build the Lean project (theorems + compiled model driver) from files on disk only. Offline.
+# Build the Lean project (theorems of every claimed property + compiled model drivers) from files on disk only. Offline.
 set -e
-cd "$(dirname "$0")/lean"
-mkdir -p ../out
-# root module = every model / proof / property file present
-(cd PbBss; ls Model/*.lean Proofs/*.lean Props/*.lean 2>/dev/null | sed 's/\.lean$//; s#/#.#g; s/^/import PbBss./') > PbBss.lean
-flock ../out/lake.lock lake build PbBss driver driver_masks driver_metrics driver_psd driver_bf driver_dist driver_trainers driver_posterior driver_em driver_tensor driver_effects driver_pipeline 2>&1 | grep -v "^✔\|^ℹ\|^⚠\|warning:\|^Hint\|^Note\|^$\|apply\]\|push_neg\|^```\|open Lean\|macro \|tactic|" | tail -40
-test -x .lake/build/bin/driver
+cd "$(dirname "$0")"
+mkdir -p out
+# root module = every model / proof / property file present (informational; the build below is per claimed property)
+(cd lean/PbBss; ls Model/*.lean Proofs/*.lean Props/*.lean 2>/dev/null | sed 's/\.lean$//; s#/#.#g; s/^/import PbBss./') > lean/PbBss.lean
+flock out/lake.lock tools/setup_build.py
 echo "setup ok"
